@@ -233,6 +233,7 @@ impl Run {
 
   /// Write evidence, print KNOWN-FINDING / VIOLATION lines, return exit code.
   pub fn finish(mut self) -> i32 {
+    statelist::flush();
     let findings = load_findings(&self.prop);
     let open: BTreeMap<String, &Finding> =
       findings.iter().filter(|f| f.status == "open").map(|f| (f.id.clone(), f)).collect();
@@ -407,5 +408,62 @@ impl Run {
       *self.attributed.entry(k).or_insert(0) += c;
     }
     self.unattributed += a.unattr;
+  }
+}
+
+
+/// Committed state lists that pin a recorded finding to the exact inputs on which it was
+/// observed (`/verif/known/<finding id>.states`, one 64-bit FNV-1a key per line). A check
+/// only reads them; `VERIF_RECORD=<dir>` (manual operation, never in a registered command)
+/// makes candidate states be collected and written to <dir> instead.
+pub mod statelist {
+  use std::collections::{BTreeMap, BTreeSet, HashSet};
+  use std::sync::{Mutex, OnceLock};
+  pub fn key(parts: &[&str]) -> u64 {
+    let mut h: u64 = 0xcbf29ce484222325;
+    for p in parts {
+      for b in p.bytes().chain([0u8]) {
+        h ^= b as u64;
+        h = h.wrapping_mul(0x100000001b3);
+      }
+    }
+    h
+  }
+  static LISTS: OnceLock<Mutex<BTreeMap<String, &'static HashSet<u64>>>> = OnceLock::new();
+  static REC: Mutex<BTreeMap<String, BTreeSet<u64>>> = Mutex::new(BTreeMap::new());
+  pub fn recording() -> bool {
+    static R: OnceLock<bool> = OnceLock::new();
+    *R.get_or_init(|| std::env::var("VERIF_RECORD").is_ok())
+  }
+  fn list(id: &str) -> &'static HashSet<u64> {
+    let m = LISTS.get_or_init(|| Mutex::new(BTreeMap::new()));
+    let mut g = m.lock().unwrap();
+    if let Some(l) = g.get(id) {
+      return l;
+    }
+    let p = format!("{}/known/{}.states", super::VERIF, id);
+    let set: HashSet<u64> =
+      std::fs::read_to_string(p).unwrap_or_default().lines().filter_map(|l| u64::from_str_radix(l.trim(), 16).ok()).collect();
+    let l: &'static HashSet<u64> = Box::leak(Box::new(set));
+    g.insert(id.to_string(), l);
+    l
+  }
+  /// is the candidate state on the committed list of finding `id`? (recording mode: collect it, answer yes)
+  pub fn listed(id: &str, k: u64) -> bool {
+    if recording() {
+      REC.lock().unwrap().entry(id.to_string()).or_default().insert(k);
+      return true;
+    }
+    list(id).contains(&k)
+  }
+  pub fn flush() {
+    if let Ok(dir) = std::env::var("VERIF_RECORD") {
+      let _ = std::fs::create_dir_all(&dir);
+      for (id, ks) in REC.lock().unwrap().iter() {
+        let body: String = ks.iter().map(|k| format!("{:016x}\n", k)).collect();
+        let _ = std::fs::write(format!("{dir}/{id}.states"), body);
+        eprintln!("recorded {} states for {id}", ks.len());
+      }
+    }
   }
 }
